@@ -82,7 +82,7 @@ func ruleTM(w *world.World, r *report.RuleResult) {
 			if iff == nil {
 				return 0
 			}
-			c := iff.Cond
+			c := world.CondValue(iff)
 			neg := false
 			for {
 				if u, ok := c.(*ssa.UnOp); ok && u.Op == token.NOT {
